@@ -147,7 +147,7 @@ def run_cases(ctx, n, big):
 
 
 def correspondence(ctx):
-    n, big = ctx.scale(700, 8000), ctx.scale(1, 12)
+    n, big = ctx.scale(1500, 8000), ctx.scale(2, 12)
     cases, res = run_cases(ctx, n, big)
     bad = L.diff_cases(cases, res)
     failures, seen = [], set()
@@ -218,7 +218,7 @@ def replay(ctx, payload):
         return 1
     head = inp["case"].split(" ", 1)[1]
     print("replay case:", inp["case"][:400], "...")
-    cases, res = run_cases(ctx, inp.get("n", 700), inp.get("big", 1))
+    cases, res = run_cases(ctx, inp.get("n", 1500), inp.get("big", 2))
     for c in cases:
         if c["line"].split(" ", 1)[1] == head:
             print("go now   :", c["go"][:600])
